@@ -272,10 +272,11 @@ def main(pid="C16", rep=None, finish=True):
                 net.close()
         rep.add("graphs_replayed", n)
         rep.add("traces_validated_against_impl", n)
-        # ---- B2: random larger graphs ----------------------------------------------------------------------------------------
+        # ---- B2: random larger graphs, judged by TLC (RedirectObs evaluates the specification's reference walk) --------------
         urls = list(REAL)
         kinds = ["final", "final", "redirect", "redirect", "redirect", "redirect", "nongemini", "relative", "empty", "badtarget"]
         m = 0
+        cases = []
         for _ in range(6000 if thorough else 1200):
             k = rnd.randint(3, 7)
             us = urls[:k]
@@ -286,17 +287,40 @@ def main(pid="C16", rep=None, finish=True):
             mx = rnd.randint(0, 6)
             follow = rnd.random() < 0.85
             start = rnd.choice(us)
-            if follow:
-                want, wc = walk(G, start, mx)
-            else:
-                want, wc = ("final" if G[start]["k"] == "final" else "redirect-returned"), 1
             net = Net(G, rnd, tofu=rnd.random() < 0.7)
             try:
                 res, resp = net.run(net.client(mx).get(net.spell[start], follow_redirects=follow))
-                judge(rep, G, start, mx, follow, res, net, want, wc, "random graph (spellings %s)" % {k_: v for k_, v in net.spell.items() if v != REAL[k_]})
                 m += 1
+                bad_lines = [ln for ln in net.lines if not ln.startswith("gemini://") or ln not in INV]
+                cases.append({"G": {u: G.get(u, {"k": "final", "to": "-"}) for u in urls}, "start": start, "max": mx, "follow": follow,
+                              "result": res if not res.startswith("error:other") else "error:other", "conns": len(net.conns),
+                              "_lines": list(net.lines), "_bad_lines": bad_lines, "_res": res,
+                              "_spell": {k_: v for k_, v in net.spell.items() if v != REAL[k_]}, "_latency": net.latency})
             finally:
                 net.close()
+        import json as _json
+        fd, tpath = tempfile.mkstemp(prefix="vf-redir-", suffix=".json")
+        with os.fdopen(fd, "w") as f:
+            _json.dump([{k_: v for k_, v in c.items() if not k_.startswith("_")} for c in cases], f)
+        try:
+            tr, reached = tlc.validate_traces("RedirectObs", "RedirectObs.cfg", tpath, timeout=900, dfs=False)
+        finally:
+            os.unlink(tpath)
+        rep.tlc("RedirectObs", tr)
+        for i, c in enumerate(cases, 1):
+            info = reached.get(i)
+            if info is None or info["max"] < 2:
+                raise tlc.TLCError("RedirectObs did not evaluate case %d" % i)
+            names = []
+            for (l_, fl) in info["bad"]:
+                names += [nm for nm, ok in zip(("Correct", "Correct", "Bounded"), fl) if not ok]
+            if c["_bad_lines"]:
+                names.append("OnlyGemini")
+            if names:
+                rep.violation({"formula": names[0], "random": True},
+                              "%s falsified (random graph, judged by RedirectObs): graph %s start=%s max_redirects=%d follow=%s spellings=%s hop latency %ss: client %s after %d connections %s" % (
+                                  sorted(set(names)), {k_: (v["k"], v["to"]) for k_, v in c["G"].items() if k_ in [u_ for u_ in c["G"]]}, c["start"], c["max"], c["follow"],
+                                  c["_spell"], c["_latency"], c["_res"], c["conns"], c["_lines"]), None)
         rep.add("random_graphs", m)
         # overlapping fetches on ONE client object (as the reverse proxy uses its client): each must still end as its own
         # reference walk says and open no more connections than its own bound
